@@ -61,6 +61,7 @@ type X struct {
 	devLeft  int
 	hangKey  string
 	hangWhat string
+	moreTime time.Duration
 	mu       sync.Mutex
 }
 
@@ -182,6 +183,9 @@ func (x *X) Failf(key string, format string, a ...any) {
 	x.Fail(key, fmt.Sprintf(format, a...), nil)
 }
 
+// NeedsTime extends the horizon of this one execution by d (a check whose executions are short may contain a few long ones).
+func (x *X) NeedsTime(d time.Duration) { x.mu.Lock(); x.moreTime = d; x.mu.Unlock() }
+
 // OnHang declares what it means if this execution does not finish within the horizon.
 func (x *X) OnHang(key, what string) { x.mu.Lock(); x.hangKey, x.hangWhat = key, what; x.mu.Unlock() }
 
@@ -268,10 +272,22 @@ func (s *Spec) runOnce(w *worker, prefix []int, frontier int) (x *X, status stri
 	if h == 0 {
 		h = 120 * time.Second
 	}
+	timer := time.NewTimer(h)
+	defer timer.Stop()
+wait:
 	select {
 	case st := <-done:
 		return x, st
-	case <-time.After(h):
+	case <-timer.C:
+		x.mu.Lock()
+		more := x.moreTime
+		x.moreTime = 0
+		x.mu.Unlock()
+		if more > 0 {
+			// the execution announced that it is one of the long ones of its check (X.NeedsTime)
+			timer.Reset(more)
+			goto wait
+		}
 		x.mu.Lock()
 		hk, hw := x.hangKey, x.hangWhat
 		x.mu.Unlock()
@@ -281,6 +297,21 @@ func (s *Spec) runOnce(w *worker, prefix []int, frontier int) (x *X, status stri
 		x.Fail(hk, hw, nil)
 		return x, "hang"
 	}
+}
+
+// IsHarnessKey: failure classes named <ID>/harness… report that the harness itself could not do its job.
+func IsHarnessKey(k string) bool { return strings.Contains(k, "/harness") }
+
+func onlyHarness(fs []Fail) bool {
+	if len(fs) == 0 {
+		return false
+	}
+	for _, f := range fs {
+		if !IsHarnessKey(f.Key) {
+			return false
+		}
+	}
+	return true
 }
 
 func keysOf(fs []Fail) map[string]bool {
@@ -306,6 +337,12 @@ func (s *Spec) exploreSubtree(w *worker, prefix []int, deadline time.Time) shard
 			return res
 		}
 		x, st := s.runOnce(w, cur, 0)
+		for try := 0; try < 3 && st != "hang" && onlyHarness(x.fails); try++ {
+			// the harness could not set the scene (e.g. an environment that did not come up on a loaded machine): that says
+			// nothing about the property; pause and run the same vector again
+			time.Sleep(time.Duration(try+1) * time.Second)
+			x, st = s.runOnce(w, cur, 0)
+		}
 		if strings.HasPrefix(st, "nondet:") {
 			res.Nondet = fmt.Sprintf("%s (vector %v)", st[7:], cur)
 			return res
@@ -536,6 +573,8 @@ func (s *Spec) Replay(path string) int {
 		s.Fini()
 	}
 	o, _ := json.MarshalIndent(map[string]any{"status": st, "case": x.notes, "outcome": x.outcome, "fails": x.fails}, "", " ")
+	// some checks give descriptors 0 and 1 of the process a new meaning in Init: the report goes to stderr
+	fmt.Fprintln(os.Stderr, string(o))
 	fmt.Println(string(o))
 	if len(x.fails) > 0 {
 		return 1
@@ -703,9 +742,17 @@ func (s *Spec) Coordinate() int {
 	violKeys := map[string]failRec{}
 	violCount := map[string]int{}
 	unstable := map[string]int{}
+	harnessFails := map[string]failRec{}
 	for _, f := range fails {
 		if _, ok := open[f.Key]; ok {
 			knownCount[f.Key]++
+			continue
+		}
+		if IsHarnessKey(f.Key) {
+			// persisted through the retries: reported as an error of the machinery (exit 3), never as a violation
+			if _, ok := harnessFails[f.Key]; !ok {
+				harnessFails[f.Key] = f
+			}
 			continue
 		}
 		if f.Repro*2 <= f.Runs && f.Runs > 2 {
@@ -716,6 +763,9 @@ func (s *Spec) Coordinate() int {
 			violKeys[f.Key] = f
 		}
 		violCount[f.Key]++
+	}
+	for k, f := range harnessFails {
+		herrs = append(herrs, fmt.Sprintf("%s (vector %v): %s", k, f.Choices, f.What))
 	}
 	var kk []string
 	for k := range knownCount {
@@ -798,12 +848,15 @@ func (s *Spec) Coordinate() int {
 		fmt.Fprintf(os.Stderr, "HARNESS-ERROR NONDETERMINISM: %v\n", nondet)
 		return 2
 	}
+	if len(violKeys) > 0 {
+		if len(herrs) > 0 {
+			fmt.Fprintf(os.Stderr, "HARNESS-ERROR: %v\n", herrs)
+		}
+		return 1
+	}
 	if len(herrs) > 0 {
 		fmt.Fprintf(os.Stderr, "HARNESS-ERROR: %v\n", herrs)
 		return 3
-	}
-	if len(violKeys) > 0 {
-		return 1
 	}
 	min := s.MinOutcomes
 	if min == 0 {
